@@ -158,7 +158,7 @@ func (p *c15pool) verify() (string, string) {
 			ok = false
 		}
 		// Get of an absent key is zero
-		for k := -1; k <= 5; k++ {
+		for k := -4; k <= 9; k++ {
 			if _, has := m.want[k]; !has && m.v.Get(k) != 0 {
 				ok = false
 			}
@@ -224,28 +224,36 @@ func c15sharing(o c15op, p *c15pool) bool {
 	return false
 }
 
+// c15val draws from a domain that includes negative numbers and, rarely, extreme values
+func c15val(r *rand.Rand, dom int) int {
+	if r.Intn(40) == 0 {
+		return []int{-1 << 62, 1<<62 - 1, -1000000, 1000000}[r.Intn(4)]
+	}
+	return r.Intn(dom) - dom/3
+}
+
 func c15randOp(r *rand.Rand, p *c15pool, dom int) c15op {
 	switch r.Intn(8) {
 	case 0:
 		n := r.Intn(6)
 		var vals []int
 		for i := 0; i < n; i++ {
-			vals = append(vals, r.Intn(dom))
+			vals = append(vals, c15val(r, dom))
 		}
 		return c15op{kind: 0, vals: vals}
 	case 1, 2:
-		return c15op{kind: 1, i: r.Intn(len(p.sets)), x: r.Intn(dom)}
+		return c15op{kind: 1, i: r.Intn(len(p.sets)), x: c15val(r, dom)}
 	case 3:
 		return c15op{kind: 2, i: r.Intn(len(p.sets)), j: r.Intn(len(p.sets))}
 	case 4, 5:
-		return c15op{kind: 3, i: r.Intn(len(p.maps)), x: r.Intn(dom)}
+		return c15op{kind: 3, i: r.Intn(len(p.maps)), x: c15val(r, dom)}
 	case 6:
 		return c15op{kind: 4, i: r.Intn(len(p.maps)), j: r.Intn(len(p.sets))}
 	default:
 		var kv [][2]int
 		seen := map[int]bool{}
 		for i, n := 0, r.Intn(4); i < n; i++ {
-			k := r.Intn(dom)
+			k := c15val(r, dom)
 			if !seen[k] {
 				seen[k] = true
 				kv = append(kv, [2]int{k, r.Intn(4)}) // zero is a legal stored value
